@@ -95,6 +95,12 @@ var c03Ctx = []string{
 	"return (%F) < (%G) && (%H) >= (%F);",
 	"x = 1.5 + %F; return x * %G;",
 	"return \"a\" + string(%F) + string(%G);",
+	"return F1 + %F + %G;",
+	"return F1 * %F * %G;",
+	"return %F + F1 + %G + %H;",
+	"x = F1; return x + 1 + 2;",
+	"x = F1; y = x * 3 * 5; z = x - 1 - 2; return [y, z, x / 2 / 5];",
+	"return (F1 + %F) + %G == F1 + (%F + %G);",
 	"if (C1 ? I1 : %F) { t(1); } else { t(2); } return %G;",
 	"return (C1 ? I1 : %F) ? 1 : 2;",
 	"w = 0; while (C1 ? w < 2 : %F) { w++; t(w); if (w > 3) { return w; } } return w;",
@@ -122,7 +128,10 @@ func c03(c *ev.Ctx) {
 		mk := func(c1 model.Value, i1 int64) map[string]model.Value {
 			return map[string]model.Value{"C1": c1, "I1": model.Int(i1), "ZERO": model.Int(0)}
 		}
-		return []map[string]model.Value{mk(model.Bool(true), 3), mk(model.Bool(false), 65534), mk(model.Int(2), -1)}
+		o1, o2, o3 := mk(model.Bool(true), 3), mk(model.Bool(false), 65534), mk(model.Int(2), -1)
+		// floats whose sums / products round differently when re-associated
+		o1["F1"], o2["F1"], o3["F1"] = model.Float(0.07), model.Float(0.1), model.Float(1e16)
+		return []map[string]model.Value{o1, o2, o3}
 	}
 	// (a) grid
 	type gcase struct{ script string }
